@@ -30,6 +30,13 @@ def run(ctx):
         for nlp in (False, True):
             ties.append(dict(entry="universal", limit=lim, nlp=nlp, fuzzy=False, thr=0, ponly=False, pboost=False,
                              allplat=False, plats=[], nocross=False, boost=False, query="lex", corpus="bigtie"))
+    # scheduling-dependent answers show on some calls only (and less often on a busy machine): the NLP cases on the
+    # large tie corpus are run several times over, through the universal and the deprecated NLP entry point
+    for rep in range(3 if q else 10):
+        for lim in (1, 2, 5, 8, 20):
+            for entry in ("universal", "legacynlp"):
+                ties.append(dict(entry=entry, limit=lim, nlp=True, fuzzy=False, thr=0, ponly=False, pboost=False,
+                                 allplat=False, plats=[], nocross=False, boost=False, query="lex", corpus="bigtie", prime="none"))
     shipped = shipped_scenarios(rnd, 40 if q else 400)
     tr, info, ok, rej = engine.run_cases(ctx, base + ties + shipped, ["C02"], reps=6 if q else 25)
     for x in rej:
